@@ -9,7 +9,7 @@ vars == <<conns, hist, fin>>
 Ports == {"i0.a", "i1.a", "i0.bp", "i1.bp"}
 PortSeq == <<"i0.a", "i1.a", "i0.bp", "i1.bp">>
 IsBundlePort(p) == p \in {"i0.bp", "i1.bp"}
-ValsOf(p) == IF IsBundlePort(p) THEN {"b", "c", "anon", "dict", "pref", "anonp", "dictp"} ELSE {"s", "t", "bus0", "cat", "pref", "nc", "prefbit"}
+ValsOf(p) == IF IsBundlePort(p) THEN {"b", "c", "anon", "dict", "pref", "anonp", "dictp"} ELSE {"s", "t", "bus0", "cat", "pref", "nc", "prefbit", "bref"}
 Default(p) == IF IsBundlePort(p) THEN "b" ELSE "s"
 O(op, p, v) == [op |-> op, port |-> p, val |-> v]
 Ops == UNION {{O("connect", p, v) : v \in ValsOf(p)} : p \in Ports}
